@@ -260,6 +260,14 @@ def replay(rec, PS, ss, history, init_value):
                 rec.seen("snapshots-not-supported", "%s: %s" % (type(ex).__name__, str(ex)[:60]))
                 fork = None
             fork_from = len(outs)
+        if len(history) % 3 == 0 and i % 2 == 1:
+            # looking at the sequencer (a log line, a debugger) is not an operation
+            try:
+                repr(seq), str(seq), format(seq), "%s %r" % (seq, seq)
+                vars(seq)
+            except Exception:
+                pass
+            rec.count("observations-between-operations")
         if op[0] == "next":
             try:
                 got = seq.next_sequence()
